@@ -24,7 +24,7 @@ RULE = ('history = sequence of operations against a real CourierServer reached t
         'after a shutdown request every answer is the correct value or a retriable TimeoutError; a 60 s watchdog catches hangs); '
         'non-trivial = depth >= 2 with a remote-object hop, or an exception, or a shutdown mid-sequence; distinct = distinct '
         'canonical case JSON'
-        '; also: server stopped and started again (restart), expressions raising their own TimeoutError, shutdown arriving while a gated request executes (both call paths), async_get_result, the same cached array-argument expression evaluated twice, floods of 255..300 remote objects')
+        '; also: the low-level call with return_exception / return_none / compress (eval_opts), server stopped and started again (restart), expressions raising their own TimeoutError, shutdown arriving while a gated request executes (both call paths), async_get_result, the same cached array-argument expression evaluated twice, floods of 255..300 remote objects')
 ASSUMPTIONS = [
     'the in-process fake transport reproduces courier\'s observable contract (futures, deadline code 4, handler exceptions as status errors)',
     'server and client share one process, so the expected values come from the C17 eager model, not from a second local evaluation',
@@ -111,6 +111,42 @@ def _client_ops(client, ops, model, what, state):
       else:
         exc_seen += 1
         check(got[:3] == want, 'remote-exception-differs-from-local', f'{w}: remote {got!r}, local evaluation raises {want!r}')
+    elif k == 'eval_opts':
+      # the low-level call with the server's documented options: the server-side exception is returned (not raised), the
+      # value may be dropped (return_none) and the answer compressed
+      e, opts = op[1], op[2]
+      saved = dict(targets.CALLS)
+      try:
+        want = ('value', model.ev(e))
+      except (ValueError, KeyError, TimeoutError) as ex:
+        want = ('exc', type(ex).__name__, str(ex))
+      targets.CALLS.clear()
+      targets.CALLS.update(saved)
+      if isinstance(want[1], c17.Handle):
+        continue
+      kw = {'return_exception': True, 'return_none': bool(opts & 1), 'compress': bool(opts & 2)}
+
+      def low_level():
+        try:
+          raw = client.call(c17.build(e), **kw).result()
+        except Exception as ex:  # pylint: disable=broad-exception-caught
+          # the transport's own failure (server gone / deadline): not an answer of the server
+          raise TimeoutError(f'transport: {ex}') from ex
+        return lf.pickler.loads(raw, compress=kw['compress'])
+      got = answer(low_level)
+      if got[0] in ('timeout', 'exc') or (got[0] == 'value' and isinstance(got[1], TimeoutError) and want[:2] != ('exc', 'TimeoutError')):
+        check(state['shutdown'] or shutting, 'timeout-without-shutdown', f'{w}: {got}')
+        continue
+      if want[0] == 'exc':
+        exc_seen += 1
+        check(isinstance(got[1], Exception) and (type(got[1]).__name__, str(got[1])) == want[1:] or (
+            (state['shutdown'] or shutting) and isinstance(got[1], TimeoutError)), 'remote-exception-differs-from-local',
+              f'{w}: the server answered {got[1]!r} (options {kw}), local evaluation raises {want!r}')
+      elif kw['return_none']:
+        check(got[1] is None, 'return-none-returns-something', f'{w}: options {kw}: {got!r}')
+      else:
+        check(c17._same_value(got[1], want[1]), 'remote-value-differs-from-local',  # pylint: disable=protected-access
+              f'{w}: options {kw}: remote {got!r}, local evaluation gives {want[1]!r}')
     elif k == 'eval_arr':
       # the same traced expression object (cached call with an array argument) is evaluated remotely more than once
       key = (tuple(op[1]), op[2])
@@ -330,6 +366,7 @@ def strat(tier):
       op = st.one_of(
           st.tuples(st.just('eval'), expr).map(list), st.tuples(st.just('eval'), expr).map(list),
           st.tuples(st.just('eval_async'), expr).map(list),
+          st.tuples(st.just('eval_opts'), expr, st.integers(0, 3)).map(list),
           st.tuples(st.just('remote_obj'), st.integers(0, 5)).map(list),
           st.tuples(st.just('eval_arr'), st.sampled_from([[1, 2, 3], [4, 5]]), st.integers(0, 1)).map(list),
           st.tuples(st.just('ro_call'), st.integers(0, 3), st.integers(1, 3)).map(list),
